@@ -4,7 +4,7 @@ import vf
 from vf import Case
 import samples
 from props.c10 import hx
-from props.c04 import TYPES, gen_model, Layout, a_node, d_node, norm_allof
+from props.c04 import TYPES, gen_model, Layout, a_node, d_node, norm_allof, tspec
 
 
 def variants(rng):
@@ -56,8 +56,7 @@ class Prop:
 
     def run_impl(self, lines):
         texts = [l.split(' ')[1] for l in lines]
-        tspec = ' '.join('T %s J %s' % (hx(k), hx(v)) for k, v in TYPES.items())
-        res = vf.run_impl(['proj all %s %s' % (t, tspec) for t in texts])
+        res = vf.run_impl(['proj all %s %s' % (t, tspec()) for t in texts])
         out = []
         for r in res:
             m = re.match(r'check=(\S+) len=(\S+) used=(\S+) example=(\S+) ast=(\S+) openapi=(\S+)', r)
